@@ -34,6 +34,26 @@ class Hole(Edit):
     def describe(self):
         return f"{self.kind}: {' '.join(self.old.split())[:90]} => {' '.join(self.new.split())[:60]} [sha256 {hashlib.sha256(self.old.encode()).hexdigest()[:12]}]" + (f" ({self.why})" if self.why else "")
 
+class Between(Edit):
+    """replace the text from the first occurrence of `start` through the first occurrence of `end` after it
+    (both inclusive) by `new`: a hole whose dropped text is identified by its two ends and its sha256"""
+    def __init__(self, start, end, new, why="", kind="hole"):
+        self.start, self.end, self.new, self.why, self.kind = start, end, new, why, kind
+        self.sha = None
+    def apply(self, text, ctx):
+        if text.count(self.start) != 1:
+            raise ExtractError(f"{ctx}: Between start matched {text.count(self.start)}x: {self.start[:60]!r}")
+        a = text.index(self.start)
+        b = text.find(self.end, a + len(self.start))
+        if b < 0:
+            raise ExtractError(f"{ctx}: Between end not found: {self.end[:60]!r}")
+        b += len(self.end)
+        self.sha = hashlib.sha256(text[a:b].encode()).hexdigest()[:12]
+        self.dropped = text[a:b]
+        return text[:a] + self.new + text[b:]
+    def describe(self):
+        return f"{self.kind}: {' '.join(self.start.split())[:60]} … {' '.join(self.end.split())[:40]} => {' '.join(self.new.split())[:60]} [sha256 {self.sha}]" + (f" ({self.why})" if self.why else "")
+
 class After(Edit):
     """insert ghost/proof text after the anchor text"""
     def __init__(self, anchor, ins, count=1):
